@@ -62,7 +62,18 @@ class Runtime:
         reactor.callLater = self.clock.callLater
         reactor.seconds = self.clock.seconds
         _time.time = lambda: BASE_TIME + self.clock.seconds()
+        self._reset_eventual_queue()
         return self
+
+    @staticmethod
+    def _reset_eventual_queue():
+        # foolscap's eventual-send queue remembers the DelayedCall it scheduled; one left over from
+        # another clock would never fire and would stop the queue from ever being scheduled again
+        import foolscap.eventual as _ev
+        q = _ev._theSimpleQueue
+        q._timer = None
+        q._events = []
+        q._flushObservers = []
 
     def uninstall(self):
         if self._saved:
@@ -70,6 +81,7 @@ class Runtime:
             reactor.seconds = self._saved["seconds"]
             _time.time = self._saved["time"]
             self._saved = {}
+            self._reset_eventual_queue()
 
     def __enter__(self):
         return self.install()
